@@ -292,6 +292,20 @@ Section Matchers.
   Definition Pc (fc : fcond) : Prop :=
     forall key e b, sem_fc gs gp fc key e = Some b -> eval_fc scandir gs gp fc key e = Ok b.
 
+  Lemma eval_fc_NameM : forall nm f rest key e,
+    eval_fc scandir gs gp (FCNameM nm f rest) key e =
+    if path_eqb (posix_parts nm) key
+    then match eval_fm scandir gs gp f e with Ok true => eval_fc scandir gs gp rest key e | r => r end
+    else eval_fc scandir gs gp rest key e.
+  Proof. reflexivity. Qed.
+
+  Lemma sem_fc_NameM : forall nm f rest key e,
+    sem_fc gs gp (FCNameM nm f rest) key e =
+    if path_eqb (posix_parts nm) key
+    then and_then (sem_fm gs gp f e) (fun _ => sem_fc gs gp rest key e)
+    else sem_fc gs gp rest key e.
+  Proof. reflexivity. Qed.
+
   Lemma matchers_sound : (forall m, Pf m) /\ (forall m, Ps m) /\ (forall fc, Pc fc).
   Proof.
     apply matcher_mutind; unfold Pf, Ps, Pc.
@@ -350,9 +364,7 @@ Section Matchers.
         injection H as <-.
         destruct (dedup (fc_names fc)) as [|k0 ks] eqn:EK.
         * cbn [forallb]. rewrite andb_true_r. f_equal.
-          assert (strict_forall (fun e => if mem_path (e_rel e) [] then sem_fc gs gp fc (e_rel e) e else Some true) L = Some true) as Ht
-              by (apply strict_forall_true; intros; reflexivity).
-          Show. congruence.
+          rewrite strict_forall_true in Es by (intros; reflexivity). congruence.
         * rewrite EF.
           rewrite (forallb_ext_in _ (fun k => has_rel k L) (fun k => has_rel k L') (k0 :: ks))
             by (intros k _; apply has_rel_perm, Permutation_sym; exact P).
@@ -376,7 +388,7 @@ Section Matchers.
       apply or_else_some in H as [[Ha Hc]|[Ha ->]]; rewrite (IHa _ _ _ MA Ha); [eapply IHc; eassumption | reflexivity].
     - (* FCNil *) intros key e b H. cbn in *. congruence.
     - (* FCName *) intros nm rest IH key e b H. cbn [sem_fc eval_fc] in *. apply IH. exact H.
-    - (* FCNameM *) intros nm f IHf rest IHr key e b H. cbn [sem_fc eval_fc] in *.
+    - (* FCNameM *) intros nm f IHf rest IHr key e b H. rewrite eval_fc_NameM. rewrite sem_fc_NameM in H.
       destruct (path_eqb (posix_parts nm) key); [|apply IHr; exact H].
       apply and_then_some in H as [[Ha Hc]|[Ha ->]]; rewrite (IHf _ _ Ha); [apply IHr; exact Hc | reflexivity].
   Qed.
